@@ -28,6 +28,9 @@ def supWord (andor : Bool) : String := if andor then "ANDOR" else "AND"
 /-- `EXPRop2__out( …, previous_op )` for the operator: parentheses are omitted under an equal parent -/
 def supOmit (andor : Bool) : Bool := ((dispatchOf (supCode andor) ExpPrec.opDispatch).map (·.1)) == some "op2prev"
 
+/-- `previous_op` handed to the right operand (see `rprev`) -/
+def supRprev (andor : Bool) : Option Bool := if ExpPrec.rightOperandSeesParent then some andor else none
+
 def supParen (andor paren : Bool) (prev : Option Bool) : Bool := paren && (!supOmit andor || prev != some andor)
 
 mutual
@@ -36,7 +39,7 @@ def supToks : SupEx → Bool → Option Bool → List DTok
   | .ent s, _, _ => [.id s]
   | .oneof items, _, _ => [.kw "ONEOF", .sym "("] ++ supItems items true ++ [.sym ")"]
   | .bin o a b, paren, prev =>
-    (if supParen o paren prev then [.sym "("] else []) ++ supToks a true (some o) ++ [.kw (supWord o)] ++ supToks b true (some o)
+    (if supParen o paren prev then [.sym "("] else []) ++ supToks a true (some o) ++ [.kw (supWord o)] ++ supToks b true (supRprev o)
       ++ (if supParen o paren prev then [.sym ")"] else [])
   | .nil, _, _ => []
   | .cons _ _, _, _ => []
@@ -95,13 +98,15 @@ def parseSupList : Nat → List DTok → Option (SupEx × List DTok)
     | none => none
 end
 
-/-- what the parser reads back: chains of one operator regrouped to the left (`a AND (b AND c)` is printed `a AND b AND c`) -/
+/-- what the parser reads back: a chain is regrouped to the left where the printer drops the parentheses of a RIGHT operand; where
+it does not (`rightOperandSeesParent = false`) `supNorm` is the identity -/
 def supAttach (o : Bool) (l : SupEx) : SupEx → SupEx
   | .bin o' x y => if o' = o then .bin o (supAttach o l x) y else .bin o l (.bin o' x y)
   | r => .bin o l r
 
 def supNorm : SupEx → SupEx
-  | .bin o a b => if supOmit o then supAttach o (supNorm a) (supNorm b) else .bin o (supNorm a) (supNorm b)
+  | .bin o a b =>
+    if supOmit o && ExpPrec.rightOperandSeesParent then supAttach o (supNorm a) (supNorm b) else .bin o (supNorm a) (supNorm b)
   | .oneof items => .oneof (supNorm items)
   | .cons e t => .cons (supNorm e) (supNorm t)
   | e => e
